@@ -632,8 +632,7 @@ func runCodec(o opts) error {
 		return fmt.Errorf("disasm command not built: %v", err)
 	}
 	nDisasm := 0
-	addDisasm := func(b []byte, kind string) {
-		nDisasm++
+	runDisasm := func(b []byte) (int, []byte, string) {
 		fp := filepath.Join(o.out, "disasm_input.bin")
 		if err := os.WriteFile(fp, b, 0600); err != nil {
 			panic(err)
@@ -651,8 +650,17 @@ func runCodec(o opts) error {
 			}
 		}
 		os.Remove(fp)
-		w.Add(hx.Case{Kind: kind, Term: fmt.Sprintf("CDisasm %s %d %s", hx.B(b), code, hx.B(so.Bytes())),
-			Desc: map[string]interface{}{"bytes": fmt.Sprintf("%x", b), "exit": code, "stderr": se.String()}})
+		return code, so.Bytes(), se.String()
+	}
+	addDisasm := func(b []byte, kind string) {
+		nDisasm++
+		code, sob, ses := runDisasm(b)
+		hexs := fmt.Sprintf("%x", b)
+		if len(hexs) > 600 {
+			hexs = fmt.Sprintf("%s... (%d bytes) ...%s", hexs[:64], len(b), hexs[len(hexs)-64:])
+		}
+		w.Add(hx.Case{Kind: kind, Term: fmt.Sprintf("CDisasm %s %d %s", hx.BLong(b), code, hx.BLong(sob)),
+			Desc: map[string]interface{}{"bytes": hexs, "exit": code, "stderr": ses}})
 	}
 	disasmEvery := 4
 	if o.tier == "thorough" {
@@ -718,6 +726,35 @@ func runCodec(o opts) error {
 			if c%disasmEvery == 0 && k == 0 {
 				addDisasm(m, "disasm-corruption")
 			}
+		}
+	}
+	// large files: the whole file is the program. The model's decoder re-measures the rest of the input at
+	// every instruction (as the Go code does with len()), so its evaluation is quadratic: 8 KiB in the quick
+	// tier, one file beyond 64 KiB (about four minutes of vm_compute) in the thorough tier only
+	{
+		unit := encNewLine(encNewLine(nil, Instr{Op: vm.MOVE, S1: []byte("foo")}), Instr{Op: vm.HALT})
+		sizes := []int{8192 / len(unit)}
+		if o.tier == "thorough" || os.Getenv("VERIF_WIDEN") == "1" {
+			sizes = append(sizes, 65536/len(unit))
+		}
+		for _, n := range sizes {
+			big := bytes.Repeat(unit, n)
+			if n < 8192 {
+				addDisasm(big, "disasm-large")
+			}
+			addDisasm(append(append([]byte{}, big...), 0xff, 0xff), "disasm-large-malformed-tail")
+		}
+	}
+	// files beyond 64 KiB that hold the encoding of a KNOWN program: judged through the round-trip theorem
+	// (CDisasmEnc, proofs/CodecCorrProofs.v), which costs no decoder evaluation
+	{
+		i1, i2 := Instr{Op: vm.MOVE, S1: []byte("foo")}, Instr{Op: vm.HALT}
+		unit := encNewLine(encNewLine(nil, i1), i2)
+		for _, n := range []int{65536 / len(unit), 65536/len(unit) + 1, 2*65536/len(unit) + 3} {
+			big := bytes.Repeat(unit, n)
+			code, so, se := runDisasm(big)
+			w.Add(hx.Case{Kind: "disasm-large-encoded", Term: fmt.Sprintf("CDisasmEnc (List.concat (repeat [%s; %s] (N.to_nat %d))) %s %d %s", i1.Term(), i2.Term(), n, hx.BLong(big), code, hx.BLong(so)),
+				Desc: map[string]interface{}{"program": fmt.Sprintf("%d x (MOVE foo; HALT), %d bytes", n, len(big)), "exit": code, "stderr": se, "stdout_bytes": len(so)}})
 		}
 	}
 	addDisasm(nil, "disasm-empty")
